@@ -6,4 +6,14 @@ Emit == PrintT(ToJson([calls |-> calls, n |-> N, expected |-> Expected(calls)]))
 CONSTANT OptSets
 OptSetsMC == { <<>>, <<"xh">>, <<"xf">>, <<"xhf">>, <<"col">>, <<"join">>, <<"layout">>, <<"xh", "col">>, <<"xhf", "join">>, <<"xf", "layout">> }
 EmitO == \A o \in OptSets : PrintT(ToJson([calls |-> calls, n |-> N, opts |-> o, expected |-> Expected(calls)]))
+\* ... and spelled more than once, through every terminal operation that renders whole pages: a selection repeated r
+\* times names the same pages (Idempotent), whatever its spelled length is compared with the document's page count,
+\* and every operation has its own page loop and its own header/footer pass
+CONSTANT Reps, Vias
+ViasMC == {"text", "markdown", "fragments", "lines", "paragraphs", "readingorder", "analyze", "blocks", "elements", "document"}
+RECURSIVE Repeat(_, _)
+Repeat(cs, r) == IF r = 0 THEN <<>> ELSE cs \o Repeat(cs, r - 1)
+EmitR == \A o \in OptSets, r \in Reps, v \in Vias :
+            (r > 1 \/ v # "text") => PrintT(ToJson([calls |-> Repeat(calls, r), n |-> N, opts |-> o, via |-> v, expected |-> Expected(Repeat(calls, r))]))
+RepeatIsIdempotent == \A r \in Reps : Expected(Repeat(calls, r)) = Expected(calls) \/ calls = <<>>
 ====
